@@ -74,3 +74,35 @@ def check_estimate(reg, src, R):
                 ok = rows is not None and all(rows[i][j] == M[i][j] for i in range(m) for j in range(n))
             reg.ground(tag + "affine-exact-and-layout", "post", "JacobianWrapper.estimate", bool(ok), backend="poly-exact",
                        detail="for f(y) = M y + c the estimate is exactly M, entry [i, j] = d f_i / d y_j, for every y, dy, every stencil with sum w = 0, sum w x = 1")
+
+
+def check_converged(reg, src, R):
+    """JacobianWrapper.check_converged(initial_state, diff, prev_error): the error estimate is max_i |diff_i| and the
+    extrapolation is declared converged exactly when it is not (above tolerance and still decreasing)."""
+    import z3
+    from pyvc.values import to_bool
+    fi = src.func(FU, "JacobianWrapper.check_converged")
+    R.under_contract(fi)
+    ex = Executor(src, reg, prop=PID)
+    st = State()
+    atol, rtol, prev = z3.Real("atol"), z3.Real("rtol"), z3.Real("prev_error")
+    st.assume(atol > 0)
+    st.assume(rtol > 0)
+    selfobj = st.new_obj("JacobianWrapper", fields=dict(atol=atol, rtol=rtol))
+    d = [z3.Real("d0"), z3.Real("d1"), z3.Real("d2")]
+    x = [z3.Real("x0"), z3.Real("x1"), z3.Real("x2")]
+    ctx = Ctx(fi, None, fi.cls, tag="JacobianWrapper.check_converged")
+    paths = ex.call_function(fi, [selfobj, ConcVec(x), ConcVec(d), prev], {}, st, ctx)
+    absd = [z3.If(v >= 0, v, -v) for v in d]
+    err = absd[0]
+    for v in absd[1:]:
+        err = z3.If(v > err, v, err)
+    tol = [atol + rtol * z3.If(v >= 0, v, -v) for v in x]
+    rel = tol[0]
+    for v in tol[1:]:
+        rel = z3.If(v > rel, v, rel)
+    for k, (s, v) in enumerate(paths):
+        e, conv = v
+        cb = to_bool(conv) if not isinstance(conv, bool) else z3.BoolVal(conv)
+        ex.prove(s, ctx, e == err, "post", "error-estimate-is-max-abs-diff#%d" % k)
+        ex.prove(s, ctx, cb == z3.Not(z3.And(err > rel, err < prev)), "post", "converged-iff-below-tolerance-or-stalled#%d" % k)
